@@ -31,7 +31,7 @@ var Families = []string{
 	"json", "json_trunc", "json_bad", "geojson", "har", "gltf", "json_deep", "json_nest", "json_wide",
 	"ndjson", "ndjson_bad", "csv", "csv_ragged", "csv_big", "tsv",
 	"png", "gif", "pdf", "zip", "docx", "ole", "elf", "gzip", "random", "empty",
-	"shebang", "svg", "rtf", "srt", "vcard", "bom8",
+	"shebang", "svg", "rtf", "srt", "vcard", "bom8", "utf8",
 }
 
 // Tag classifies what a detection of the input does to recycled state.
@@ -315,6 +315,18 @@ func (in Input) base() []byte {
 		b[0] = 0x01 // keep it binary and free of known magic numbers
 		b[1] = 0x02
 		return b
+	case "utf8":
+		// valid UTF-8 text dense in 2-, 3- and 4-byte sequences, so that a cut at
+		// almost any limit falls inside a rune; V selects the mix, P shifts the phase
+		runes := [][]rune{[]rune("é ü ñ "), []rune("語 文 字 € "), []rune("😀 𝄞 𐍈 "), []rune("aé語😀b ")}[v%4]
+		var sb strings.Builder
+		for i := 0; i < clamp(p, 0, 3); i++ {
+			sb.WriteByte('x')
+		}
+		for i := 0; sb.Len() < clamp(n, 1, 1<<20); i++ {
+			sb.WriteRune(runes[i%len(runes)])
+		}
+		return []byte(sb.String())
 	case "bom8":
 		// UTF-8 byte-order mark, optional white space, then lower/upper-case markup or text
 		bodies := []string{"<html><head><meta charset=\"iso-8859-5\"></head><body>x</body></html>", "<?xml version=\"1.0\"?><a/>", "plain text after a mark",
